@@ -1,5 +1,6 @@
 import HcipyVerif.Model.Proto
 import HcipyVerif.Model.Layer
+import HcipyVerif.Model.LayerHeap
 
 /-! Line-protocol front end of the C15 model.
 
@@ -8,10 +9,22 @@ fin new nx ny vx vy cn2 L0 seed | fin evolve t | fin reset 0|1 | fin setcn2 c | 
       → ok c=[cx,cy] t=T rng=P orig=P noise=P v=[vx,vy] par=[cn2,L0] npar=[cn2,L0]
 inf new nx ny dx dy vx vy cn2 L0 seed | inf evolve t | inf reset 0|1 | inf setcn2 c | inf setl0 l | inf setvel vx vy
       → ok c=[..] t=T sub=[..] rng=P orig=P hist=H v=[..] par=[cn2,L0] pars=cn2|L0;… scr=s:h:j:p,…
-        (p = index into pars: the parameters the sample was generated with; backwards evolution: err value;
+        (p = index into pars: the parameters the sample was generated with + the changes logged on the running layer; backwards evolution: err value;
          `inf evolveq t` = evolve, answer without pars/scr)
 phases sx sy [kx…] [ky…]   (phasesold …)                      → ok [S_0,…]      flat, x fastest
 extrude left|right|top|bottom W H [new…] [screen…]            → ok […]          (naturals)
+arext left|right|top|bottom W H amp [screen…] [stencil positions…] [normals…] [A row];[A row]… [B row];…
+      → ok [new screen…]        numeric `_extrude`: A·screen[stencil] + B·normals·amp, then the list surgery (exact rationals)
+phasefor a λ                                                   → ok a/λ
+synth M [x…] [y…] [kx…] [ky…] [Re C…] [Im C…]                  → ok [a_0,…,a_{M-1}];…   one list per point (x fastest):
+      `Shift.synth` with the exact character `cycChar M` into ℚ[ℤ/M] (kx, ky in turns per length: kx[m]·x[n] ∈ (1/M)ℤ; 4 ∣ M;
+      i = X^(M/4)); the value of `fourier.backward(C)` at the point is Σ_r a_r e^{2πi r/M}
+hfin new int|gen|genshared nx ny vx vy cn2 L0 seed | hfin evolve t | reset b | setcn2 c | setl0 l | setvel vx vy | read |
+     cdraw n  (the caller draws n numbers from the generator it passed as `seed=`)
+      → the `fin` answer of the view + valid=0|1 cache=0|1 caller=P|- al=<rng is orig><orig is caller><rng is caller>
+        cells=N [shown=pos|cn2|L0|cx|cy after read]            (heap model with lazy noise and cached screen)
+hinf new int|gen|genshared nx ny dx dy vx vy cn2 L0 seed | hinf evolve t | evolveq t | reset b | set… | cdraw n
+      → the `inf` answer of the view + caller= al= cells=
 ```
 -/
 namespace HcipyVerif.Driver.C15
@@ -20,6 +33,8 @@ open HcipyVerif.Proto HcipyVerif.Layer HcipyVerif.Shift
 structure St where
   fin : Option FinL := none
   inf : Option InfL := none
+  hfin : Option (HFin × Bool) := none
+  hinf : Option (HInf × Bool) := none
 
 def showV2 (v : V2) : String := s!"[{showRat v.1},{showRat v.2}]"
 
@@ -29,18 +44,59 @@ def showFin (L : FinL) : String :=
   s!"ok c={showV2 L.center} t={showRat L.t} rng={L.rng.pos} orig={L.orig.pos} noise={L.noise.pos} " ++
   s!"v={showV2 L.vel} par={showPar L.par} npar={showPar L.noisePar}"
 
-def showSym (pars : List Par) (s : Sym) : String := s!"{s.start}:{s.hist}:{s.j}:{pars.idxOf s.par}"
+def showSym (pars : List (Par × List (Nat × Par))) (s : Sym) : String :=
+  s!"{s.start}:{s.hist}:{s.j}:{pars.idxOf (s.par, s.plog)}"
+
+/-- legend entry: the parameters of the sample, then the logged changes `@hist|cn2|L0` (latest first) -/
+def showParLog (p : Par × List (Nat × Par)) : String :=
+  s!"{showRat p.1.cn2}|{showRat p.1.L0}" ++ String.join (p.2.map fun e => s!"@{e.1}|{showRat e.2.cn2}|{showRat e.2.L0}")
 
 def showInf (L : InfL) : String :=
-  let pars := (L.screen.map (·.par)).eraseDups
+  let pars := (L.screen.map fun s => (s.par, s.plog)).eraseDups
   s!"ok c={showV2 L.center} t={showRat L.t} sub={showV2 L.sub} rng={L.rng.pos} orig={L.orig.pos} hist={L.hist} " ++
-  s!"v={showV2 L.vel} par={showPar L.par} pars=" ++ ";".intercalate (pars.map fun p => s!"{showRat p.cn2}|{showRat p.L0}") ++
+  s!"v={showV2 L.vel} par={showPar L.par} pars=" ++ ";".intercalate (pars.map showParLog) ++
   " scr=" ++ ",".intercalate (L.screen.map (showSym pars))
 
 /-- bookkeeping only (long histories of tiny steps: the screen is printed at the reads' operations only) -/
 def showInfQ (L : InfL) : String :=
   s!"ok c={showV2 L.center} t={showRat L.t} sub={showV2 L.sub} rng={L.rng.pos} orig={L.orig.pos} hist={L.hist} " ++
   s!"v={showV2 L.vel} par={showPar L.par}"
+
+def b01 (b : Bool) : String := if b then "1" else "0"
+
+def showHeap {σ : Type} (H : HL σ) (caller : Bool) : String :=
+  s!" caller={if caller then toString (H.get 0).pos else "-"} al={b01 (H.rngH == H.origH)}" ++
+  s!"{b01 (caller && H.origH == 0)}{b01 (caller && H.rngH == 0)} cells={H.cells.length}"
+
+def showHFin (H : HFin) (caller : Bool) (read : Bool) : String :=
+  let C := H.view finAccess
+  showFin C.base ++ s!" valid={b01 C.valid} cache={b01 C.cache.isSome}" ++ showHeap H caller ++
+  (if read then
+    match C.cache with
+    | some (n, p, c) => s!" shown={n.pos}|{showRat p.cn2}|{showRat p.L0}|{showRat c.1}|{showRat c.2}"
+    | none => " shown=none"
+   else "")
+
+def parseKind? (s : String) : Option SeedKind :=
+  if s == "int" then some .int else if s == "gen" then some .gen else if s == "genshared" then some .genShared else none
+
+def hfinOp (st : St) (o : COp) : St × String :=
+  match st.hfin with
+  | some (H, c) => let H := H.step finAccess o; ({ st with hfin := some (H, c) }, showHFin H c (o == .read))
+  | none => (st, "bad-op")
+
+def hinfOp (st : St) (o : Op) (quiet : Bool := false) : St × String :=
+  match st.hinf with
+  | some (H, c) =>
+    match o with
+    | .evolve t =>
+      if t < (H.view infAccess).t then (st, "err value") else
+      let H := H.step infAccess o
+      ({ st with hinf := some (H, c) }, (if quiet then showInfQ else showInf) (H.view infAccess) ++ showHeap H c)
+    | _ =>
+      let H := H.step infAccess o
+      ({ st with hinf := some (H, c) }, showInf (H.view infAccess) ++ showHeap H c)
+  | none => (st, "bad-op")
 
 def parseBool? (s : String) : Option Bool :=
   if s == "0" then some false else if s == "1" then some true else none
@@ -114,6 +170,83 @@ def step (st : St) : List String → St × String
   | ["inf", "reset", b] =>
     match st.inf, parseBool? b with
     | some L, some b => let L := L.reset b; ({ st with inf := some L }, showInf L)
+    | _, _ => (st, "bad-op")
+  | ["hfin", "new", k, nx, ny, vx, vy, cn2, l0, seed] =>
+    match parseKind? k, parseNat? nx, parseNat? ny, parseRat? vx, parseRat? vy, parseRat? cn2, parseRat? l0, parseNat? seed with
+    | some k, some nx, some ny, some vx, some vy, some cn2, some l0, some seed =>
+      let H := HFin.new k nx ny (vx, vy) ⟨cn2, l0⟩ ⟨seed, 0⟩
+      ({ st with hfin := some (H, k != .int) }, showHFin H (k != .int) false)
+    | _, _, _, _, _, _, _, _ => (st, "bad-op")
+  | ["hfin", "setcn2", c] => match parseRat? c with
+    | some c => hfinOp st (.op (.setCn2 c))
+    | none => (st, "bad-op")
+  | ["hfin", "setl0", c] => match parseRat? c with
+    | some c => hfinOp st (.op (.setL0 c))
+    | none => (st, "bad-op")
+  | ["hfin", "setvel", vx, vy] => match parseRat? vx, parseRat? vy with
+    | some vx, some vy => hfinOp st (.op (.setVel (vx, vy)))
+    | _, _ => (st, "bad-op")
+  | ["hfin", "evolve", t] => match parseRat? t with
+    | some t => hfinOp st (.op (.evolve t))
+    | none => (st, "bad-op")
+  | ["hfin", "reset", b] => match parseBool? b with
+    | some b => hfinOp st (.op (.reset b))
+    | none => (st, "bad-op")
+  | ["hfin", "read"] => hfinOp st .read
+  | ["hfin", "cdraw", n] =>
+    match st.hfin, parseNat? n with
+    | some (H, true), some n => let H := H.foreignDraw 0 n; ({ st with hfin := some (H, true) }, showHFin H true false)
+    | _, _ => (st, "bad-op")
+  | ["hinf", "new", k, nx, ny, dx, dy, vx, vy, cn2, l0, seed] =>
+    match parseKind? k, parseNat? nx, parseNat? ny, parseRat? dx, parseRat? dy, parseRat? vx, parseRat? vy, parseRat? cn2,
+        parseRat? l0, parseNat? seed with
+    | some k, some nx, some ny, some dx, some dy, some vx, some vy, some cn2, some l0, some seed =>
+      if dx = 0 || dy = 0 then (st, "bad-op") else
+      let H := HInf.new k nx ny (dx, dy) (vx, vy) ⟨cn2, l0⟩ ⟨seed, 0⟩
+      ({ st with hinf := some (H, k != .int) }, showInf (H.view infAccess) ++ showHeap H (k != .int))
+    | _, _, _, _, _, _, _, _, _, _ => (st, "bad-op")
+  | ["hinf", "setcn2", c] => match parseRat? c with
+    | some c => hinfOp st (.setCn2 c)
+    | none => (st, "bad-op")
+  | ["hinf", "setl0", c] => match parseRat? c with
+    | some c => hinfOp st (.setL0 c)
+    | none => (st, "bad-op")
+  | ["hinf", "setvel", vx, vy] => match parseRat? vx, parseRat? vy with
+    | some vx, some vy => hinfOp st (.setVel (vx, vy))
+    | _, _ => (st, "bad-op")
+  | ["hinf", "evolve", t] => match parseRat? t with
+    | some t => hinfOp st (.evolve t)
+    | none => (st, "bad-op")
+  | ["hinf", "evolveq", t] => match parseRat? t with
+    | some t => hinfOp st (.evolve t) true
+    | none => (st, "bad-op")
+  | ["hinf", "reset", b] => match parseBool? b with
+    | some b => hinfOp st (.reset b)
+    | none => (st, "bad-op")
+  | ["hinf", "cdraw", n] =>
+    match st.hinf, parseNat? n with
+    | some (H, true), some n =>
+      let H := H.foreignDraw 0 n; ({ st with hinf := some (H, true) }, showInf (H.view infAccess) ++ showHeap H true)
+    | _, _ => (st, "bad-op")
+  | ["arext", w, W, H, amp, scr, idx, rnd, A, B] =>
+    match parseWhere? w, parseNat? W, parseNat? H, parseRat? amp, parseRatList? scr, parseNatList? idx, parseRatList? rnd,
+        parseRatLists? A, parseRatLists? B with
+    | some w, some W, some H, some amp, some scr, some idx, some rnd, some A, some B =>
+      if scr.length ≠ H * W || A.length ≠ (if w.horizontal then H else W) || B.length ≠ A.length then (st, "err value")
+      else (st, "ok " ++ showRatList (arExtrude w W H A B idx rnd amp scr))
+    | _, _, _, _, _, _, _, _, _ => (st, "bad-op")
+  | ["synth", M, xs, ys, kx, ky, cre, cim] =>
+    match parseNat? M, parseRatList? xs, parseRatList? ys, parseRatList? kx, parseRatList? ky, parseRatList? cre,
+        parseRatList? cim with
+    | some M, some xs, some ys, some kx, some ky, some cre, some cim =>
+      if cre.length ≠ kx.length * ky.length then (st, "err value") else
+      match synthCyc M xs ys kx ky cre cim with
+      | some r => (st, "ok " ++ showRatLists r)
+      | none => (st, "err value")
+    | _, _, _, _, _, _, _ => (st, "bad-op")
+  | ["phasefor", a, l] =>
+    match parseRat? a, parseRat? l with
+    | some a, some l => if l = 0 then (st, "err value") else (st, "ok " ++ showRat (phaseFor a l))
     | _, _ => (st, "bad-op")
   | ["phases", sx, sy, kx, ky] =>
     match parseRat? sx, parseRat? sy, parseRatList? kx, parseRatList? ky with
